@@ -240,13 +240,14 @@ class Bus (objects.DBusObject):
             elif mt == 4:
                 self.signalReceived(p, msg)
 
-            if (
-                    msg.destination
-                    and not msg.destination == 'org.freedesktop.DBus'
-            ):
-                self.sendMessage(msg)
-
-            self.router.routeMessage(msg)
+            if msg.destination:
+                # addressed: to its destination only (the bus itself has
+                # already handled what was meant for it)
+                if not msg.destination == 'org.freedesktop.DBus':
+                    self.sendMessage(msg)
+            else:
+                # broadcast: to the holders of matching rules
+                self.router.routeMessage(msg)
         except DError as e:
             sig = None
             body = None
